@@ -38,6 +38,7 @@ Inductive vkind :=
 Inductive schema :=
 | SLeaf (k : vkind)
 | SAlias (target : path) (k : vkind)     (* getter reads / setter writes self.<target>; k = kind of the target leaf *)
+         (vis : bool)                    (* listed by as_dict() (false: the class overrides as_dict and pops it) *)
 | SObj (cname : string)
        (strtext : bool)                  (* the owning setter turns a str into Class(text=val) *)
        (haskw : bool)                    (* the class __init__ takes keyword catch-all *)
@@ -46,6 +47,11 @@ Inductive schema :=
        (props : list (string * schema)). (* properties in dir() order *)
 
 Inductive err := EName | EValue | EOther.
+
+(* the two forms of DefaultSettings.reset that the translator recognises *)
+Inductive rmode :=
+| RRebuild     (* for key, val in get_defaults_dict().items(): setattr(self, key, val) *)
+| RMerge.      (* self.update(get_defaults_dict(), _match_properties=False)   (before f095e9f) *)
 Definition res (A : Type) := (A + err)%type.
 
 Definition sprops (s : schema) : list (string * schema) :=
@@ -230,7 +236,7 @@ Fixpoint as_dict (s : schema) (st : tree) : tree :=
                | [] => []
                | (p, sp) :: r =>
                    match sp with
-                   | SAlias tgt _ => (p, or_none (tget tgt st)) :: go r
+                   | SAlias tgt _ vis => if vis then (p, or_none (tget tgt st)) :: go r else go r
                    | _ => (p, as_dict sp (or_none (tget [p] st))) :: go r
                    end
                end) props)
@@ -266,7 +272,7 @@ Fixpoint set_into (s : schema) (v : tree) : res tree :=
       | Leaf o => match validate k o with inl o' => inl (Leaf o') | inr e => inr e end
       | Node _ => inr EValue
       end
-  | SAlias _ _ => inr EOther
+  | SAlias _ _ _ => inr EOther
   | SObj _ strtext haskw ctor props =>
       match (match v with
              | Node d => Some d
@@ -287,7 +293,7 @@ Fixpoint set_into (s : schema) (v : tree) : res tree :=
                  | [] => inl (Node st)
                  | (p, sp) :: r =>
                      match sp with
-                     | SAlias tgt k => match set_alias tgt k (or_none (dget p mk)) st with
+                     | SAlias tgt k _ => match set_alias tgt k (or_none (dget p mk)) st with
                                        | inl st' => go r st'
                                        | inr e => inr e
                                        end
@@ -304,7 +310,7 @@ Fixpoint set_into (s : schema) (v : tree) : res tree :=
 Definition setattr (props : list (string * schema)) (st : dict) (k : string) (v : tree) : res dict :=
   match slookup k props with
   | None => inr EName
-  | Some (SAlias tgt kd) => set_alias tgt kd v st
+  | Some (SAlias tgt kd _) => set_alias tgt kd v st
   | Some sp => match set_into sp v with inl t => inl (dset k t st) | inr e => inr e end
   end.
 
@@ -413,17 +419,25 @@ Definition get_style (s : schema) (families : list string) (ds : schema) (dst : 
   end.
 
 (* ---------------------------------------------------------------- defaults *)
-(* DefaultSettings.reset(): self.update(get_defaults_dict(), _match_properties=False) *)
-Definition reset (s : schema) (st : tree) (DEFAULTS : tree) : tree * option err :=
+(* DefaultSettings.reset() *)
+Definition reset (m : rmode) (s : schema) (st : tree) (DEFAULTS : tree) : tree * option err :=
   match DEFAULTS with
-  | Node d => update s st d false false
+  | Node d =>
+      match m with
+      | RMerge => update s st d false false
+      | RRebuild =>
+          match s, st with
+          | SObj _ _ _ _ props, Node sd => let '(sd', e) := apply_items props d sd in (Node sd', e)
+          | _, _ => (st, Some EOther)
+          end
+      end
   | Leaf _ => (st, Some EOther)
   end.
 
 (* DefaultSettings(): MagicProperties.__init__(display=None) then reset() *)
-Definition defaults_new (s : schema) (DEFAULTS : tree) : tree * option err :=
+Definition defaults_new (m : rmode) (s : schema) (DEFAULTS : tree) : tree * option err :=
   match fresh s with
-  | inl st0 => reset s st0 DEFAULTS
+  | inl st0 => reset m s st0 DEFAULTS
   | inr e => (Leaf None, Some e)
   end.
 
